@@ -43,7 +43,7 @@ class Path:
     q.notes = list(self.notes)
     q.side = list(self.side)
     q.trace = list(self.trace)
-    q.lists = {k: list(v) for k, v in self.lists.items()}
+    q.lists = {k: dict(v) for k, v in self.lists.items()}
     return q
 
   def assume(self, c):
@@ -120,6 +120,8 @@ class Executor:
       return z3.BoolVal(len(v.s) > 0)
     if isinstance(v, (VTuple, VList)):
       return z3.BoolVal(len(v.items) > 0)
+    if isinstance(v, VListRef):
+      return p.lists[v.lid]['n'] > 0
     if isinstance(v, VDict):
       return z3.BoolVal(len(v.d) > 0)
     if isinstance(v, VRef):
@@ -666,7 +668,7 @@ class Executor:
       return [(p, VOpaque(base.recv.what + '.' + base.name + '.' + attr))]
     if isinstance(base, VDict):
       return [(p, VBoundExt(base, attr))]
-    if isinstance(base, (VList, VTuple, VSet)):
+    if isinstance(base, (VList, VTuple, VSet, VListRef)):
       return [(p, VBoundExt(base, attr))]
     if self.lib:
       r = self.lib.getattr_(self, base, attr, p)
